@@ -83,7 +83,7 @@ class NameValueVariantBase(FieldParsableBase):
         separator = cls.get_separator()
         parser = cls._parse_name(parsable)
 
-        parser.parse_separator(separator)
+        parser.parse_string('separator', separator)
 
         if parser['name'].lower() != cls.get_canonical_name().lower():
             raise InvalidType()
@@ -108,7 +108,7 @@ class NameValuePair(FieldParsableBase):
 
         parser = cls._parse_name(parsable)
         if parser.unparsed_length:
-            parser.parse_separator(cls.get_separator())
+            parser.parse_string('separator', cls.get_separator())
             parser.parse_string_by_length('value', min_length=0)
             value = parser['value'].lstrip(' \t')
             if value and value[0] == '"':
